@@ -183,8 +183,7 @@ Section Proofs.
     - intros r R. rewrite <- length_content in R.
       destruct (nth_error (content d) r) as [x|] eqn:E; [|apply nth_error_None in E; lia].
       rewrite (getitem_int _ _ _ E). f_equal.
-      change (@nil (label * obs)) with ((fun x => fresh [x]) x) at 1. rewrite map_nth.
-      f_equal. f_equal. symmetry. now apply nth_error_nth.
+      symmetry. apply nth_error_nth. now rewrite nth_error_map, E.
     - induction (content d) as [|x l IH]; [reflexivity|]. simpl. now rewrite IH.
     - apply Forall_forall. intros s I. apply in_map_iff in I. destruct I as [x [<- _]]. reflexivity.
   Qed.
